@@ -14,5 +14,15 @@ run r2-3 C01 C20 C10 C11
 run r3-1 C01 C20 C11 C15 C14 C02
 run r3-2 C02 C14 C15 C19 C16
 run r3-3 C16 C14 C05 C07
+# second corpus: CORRECT implementations of the optimisations the seeds got wrong
+run r4-1 C03 C06 C07 C17 C04 C05
+run r4-2 C03 C06 C07 C17 C04 C05
+run r4-3 C08 C09 C18 C04 C19 C05
+run r5-1 C10 C11 C12 C13 C01 C05 C20
+run r5-2 C10 C11 C12 C13 C01 C05 C20
+run r5-3 C10 C11 C12 C13 C01 C05 C20
+run r6-1 C15 C02 C19 C16 C17
+run r6-2 C01 C14 C02 C15 C20 C11 C19
+run r6-3 C15 C16 C19 C02 C17 C05
 mv $OUT.tmp $OUT
 awk -F'\t' '$3!=0' $OUT
